@@ -215,7 +215,7 @@ func c11GenRcpt(r *core.Rand, conf ref.ExtConf) c11Line {
 }
 
 func c11Run(ctx *core.Ctx) {
-	nValid, shortLen, nSeeds := 12000, 4, 40
+	nValid, shortLen, nSeeds := 48000, 4, 80
 	if ctx.Thorough() {
 		nValid, shortLen, nSeeds = 400000, 5, 200
 	}
